@@ -1,5 +1,6 @@
 import I18n.Model.Check
 import I18n.Model.Mo
+import I18n.Model.Po
 /-
 What C17 needs of the checker between "a file was loaded" and "tags were printed" (core Lean only):
 
@@ -37,7 +38,7 @@ structure PEntry where
   msgctxt : Option Text
   msgidPlural : Option Text          -- `None` when absent (polib4us base_entry_init_patch)
   msgstr : Option Text               -- `None` when absent (same patch): plural entries
-  msgstrPlural : List Text           -- `{0: …, 1: …}`: the forms in index order
+  msgstrPlural : List (Nat × Text)   -- `msgstr_plural`: an (Int)dict, insertion order
   flags : List Text                  -- PO: a list; MO: `()`
   comment : Option Text              -- PO: `''` when there is none; MO: `None`
   occurrences : List (Text × Text)   -- PO: `[]`; MO: `()`
@@ -49,6 +50,11 @@ structure PEntry where
   translated : Bool
   deriving DecidableEq, Repr
 
+/-- `{i: s for i, s in enumerate(msgstrs)}` -/
+def enumerate : Nat → List Text → List (Nat × Text)
+  | _, [] => []
+  | i, s :: rest => (i, s) :: enumerate (i + 1) rest
+
 /-- lib/moparser.py:150-178 — `polib.MOEntry(**kwargs)`, then `comment = None`, `occurrences = ()`, `flags = ()`,
     `translated = lambda: True`, `previous_* = None` -/
 def ofMo (e : Mo.Entry) : PEntry :=
@@ -58,15 +64,15 @@ def ofMo (e : Mo.Entry) : PEntry :=
       flags := [], comment := none, occurrences := [], obsolete := false,
       previousMsgctxt := none, previousMsgid := none, previousMsgidPlural := none, translated := true }
   | .plural p fs =>
-    { msgid := e.msgid, msgctxt := e.msgctxt, msgidPlural := some p, msgstr := none, msgstrPlural := fs,
+    { msgid := e.msgid, msgctxt := e.msgctxt, msgidPlural := some p, msgstr := none, msgstrPlural := enumerate 0 fs,
       flags := [], comment := none, occurrences := [], obsolete := false,
       previousMsgctxt := none, previousMsgid := none, previousMsgidPlural := none, translated := true }
 
 /-- `POEntry.translated()` as patched by lib/polib4us.py -/
-def poTranslated (obsolete : Bool) (flags : List Text) (msgstr : Option Text) (msgstrPlural : List Text) : Bool :=
+def poTranslated (obsolete : Bool) (flags : List Text) (msgstr : Option Text) (msgstrPlural : List (Nat × Text)) : Bool :=
   if obsolete then false
   else if flags.contains "fuzzy".toList then false
-  else (msgstr.getD []) != [] || msgstrPlural.any (· != [])
+  else (msgstr.getD []) != [] || msgstrPlural.any (·.2 != [])
 
 /-- the PO spelling of the same message without flags, comments, references, previous msgid, not obsolete:
     what `polib.pofile` + the patches build (`comment = ''`, `flags = []`, `occurrences = []`) -/
@@ -78,10 +84,18 @@ def ofPo (e : Mo.Entry) : PEntry :=
       previousMsgctxt := none, previousMsgid := none, previousMsgidPlural := none,
       translated := poTranslated false [] (some s) [] }
   | .plural p fs =>
-    { msgid := e.msgid, msgctxt := e.msgctxt, msgidPlural := some p, msgstr := none, msgstrPlural := fs,
+    { msgid := e.msgid, msgctxt := e.msgctxt, msgidPlural := some p, msgstr := none, msgstrPlural := enumerate 0 fs,
       flags := [], comment := some [], occurrences := [], obsolete := false,
       previousMsgctxt := none, previousMsgid := none, previousMsgidPlural := none,
-      translated := poTranslated false [] none fs }
+      translated := poTranslated false [] none (enumerate 0 fs) }
+
+/-- the entry `polib.pofile` + patches built (C10's `Po.Entry`) as a polib entry: `comment` is `''` when there is none,
+    `translated()` is the patched method -/
+def ofPoEntry (e : Po.Entry) : PEntry :=
+  { msgid := e.msgid, msgctxt := e.msgctxt, msgidPlural := e.msgidPlural, msgstr := e.msgstr, msgstrPlural := e.msgstrPlural,
+    flags := e.flags, comment := some e.comment, occurrences := e.occurrences, obsolete := e.obsolete,
+    previousMsgctxt := e.previousMsgctxt, previousMsgid := e.previousMsgid, previousMsgidPlural := e.previousMsgidPlural,
+    translated := Po.translated e }
 
 /-- what lib/check/ can tell about an entry, given HOW it reads each attribute -/
 structure Obs where
@@ -91,7 +105,7 @@ structure Obs where
   /-- `message.msgstr` is used as `bool(message.msgstr)`, `msgstr or ''`, `not message.msgstr`, or as a value after one of
       these tests succeeded: `None` and `''` are indistinguishable -/
   msgstrOrEmpty : Text
-  msgstrPlural : List Text
+  msgstrPlural : List (Nat × Text)
   /-- `collections.Counter(message.flags)`: list and tuple iterate alike -/
   flags : List Text
   /-- `message.comment or ''` -/
